@@ -319,4 +319,116 @@ theorem run_handed (c : Crypto PK) (cfg : Config) :
       obtain ⟨m', hm', rest⟩ := run_handed c cfg ms _ hinv' hside' hstep hh
       exact ⟨m', List.mem_cons_of_mem _ hm', rest⟩
 
+/-! ### failing branches: an id on a peer object means "handed over (verified)" or "closed" -/
+
+/-- `p.ID()` is non-nil only on peers that were handed over or are closed; never both. -/
+def IdInv (s : PeerSt) : Prop :=
+  (s.id.isSome = true → s.closed = true ∨ s.handed = true) ∧ ¬ (s.closed = true ∧ s.handed = true)
+
+theorem idInv_onPeer (inbound : Bool) : IdInv (onPeer inbound).1 := by
+  cases inbound <;> simp [onPeer, IdInv]
+
+theorem close_idInv (s : PeerSt) (hn : s.handed = false) : IdInv (close s) := by
+  simp [IdInv, close, hn]
+
+theorem hsigreq_idInv (c : Crypto PK) (cfg : Config) (s : PeerSt) (pub sig : Bytes)
+    (hc : s.closed = false) (hn : s.handed = false) :
+    IdInv (handleSignatureRequest c cfg s pub sig).1 := by
+  unfold handleSignatureRequest IdInv
+  repeat' split
+  all_goals simp_all [close]
+
+theorem hsigresp_idInv (c : Crypto PK) (s : PeerSt) (pub sig : Bytes) (e : Bool)
+    (hi : IdInv s) (hc : s.closed = false) (hn : s.handed = false) :
+    IdInv (handleSignatureResponse c s pub sig e).1 := by
+  unfold IdInv at hi
+  unfold handleSignatureResponse IdInv
+  repeat' split
+  all_goals simp_all [close]
+
+theorem idInv_step (c : Crypto PK) (cfg : Config) (s : PeerSt) (m : Msg) (hi : IdInv s) :
+    IdInv (onPacket c cfg s m).1 := by
+  by_cases hfr : s.closed = true ∨ s.handed = true
+  · rw [frozen c cfg s m hfr]; exact hi
+  have hcl : s.closed = false := by
+    cases h : s.closed with
+    | true => exact absurd (Or.inl h) hfr
+    | false => rfl
+  have hn : s.handed = false := by
+    cases h : s.handed with
+    | true => exact absurd (Or.inr h) hfr
+    | false => rfl
+  cases hsub : m.sub with
+  | none => rw [onPacket_nosub c cfg s m hcl hn hsub]; exact close_idInv s hn
+  | some sub =>
+    cases hcw : checkWait s sub with
+    | none => rw [onPacket_badwait c cfg s m sub hcl hn hsub hcw]; exact close_idInv s hn
+    | some s1 =>
+      rw [onPacket_open c cfg s s1 m sub hcl hn hsub hcw]
+      obtain ⟨_, _, e3, e4, e5, _⟩ := checkWait_some s s1 sub hcw
+      have hn1 : s1.handed = false := by rw [e5]; exact hn
+      have hc1 : s1.closed = false := by rw [e4]; exact hcl
+      have hi1 : IdInv s1 := by unfold IdInv at hi ⊢; rw [e3, e4, e5]; exact hi
+      cases m with
+      | garbage _ => exact close_idInv s1 hn1
+      | unknownSub => exact close_idInv s1 hn1
+      | secureRequest suites aeads param =>
+        obtain ⟨f1, _, f3, _⟩ := hsreq_fields cfg s1 suites aeads param
+        simp only [dispatch]
+        unfold IdInv at hi1 ⊢
+        rw [f1, f3, hn1]
+        refine ⟨fun h => ?_, by simp⟩
+        have := hi1.1 h
+        rw [hc1, hn1] at this; simp at this
+      | secureResponse suite aead param e =>
+        obtain ⟨f1, _, f3, _⟩ := hsresp_fields cfg s1 suite aead param e
+        simp only [dispatch]
+        unfold IdInv at hi1 ⊢
+        rw [f1, f3, hn1]
+        refine ⟨fun h => ?_, by simp⟩
+        have := hi1.1 h
+        rw [hc1, hn1] at this; simp at this
+      | signatureRequest pub sig => exact hsigreq_idInv c cfg s1 pub sig hc1 hn1
+      | signatureResponse pub sig e => exact hsigresp_idInv c s1 pub sig e hi1 hc1 hn1
+
+theorem idInv_run (c : Crypto PK) (cfg : Config) :
+    ∀ (ms : List Msg) (s : PeerSt), IdInv s → IdInv (run c cfg s ms)
+  | [], _, h => h
+  | m :: ms, s, h => idInv_run c cfg ms _ (idInv_step c cfg s m h)
+
+theorem run_closed_stays (c : Crypto PK) (cfg : Config) :
+    ∀ (ms : List Msg) (s : PeerSt), s.closed = true → run c cfg s ms = s
+  | [], _, _ => rfl
+  | m :: ms, s, h => by
+    simp only [run]; rw [frozen c cfg s m (Or.inl h)]; exact run_closed_stays c cfg ms s h
+
+theorem run_append (c : Crypto PK) (cfg : Config) :
+    ∀ (ms ms' : List Msg) (s : PeerSt), run c cfg s (ms ++ ms') = run c cfg (run c cfg s ms) ms'
+  | [], _, _ => rfl
+  | m :: ms, ms', s => by simp only [List.cons_append, run]; exact run_append c cfg ms ms' _
+
+/-- exact outcome of an in-sequence signature request on the accepting side. -/
+theorem sigreq_outcome (c : Crypto PK) (cfg : Config) (s : PeerSt) (pub sig : Bytes)
+    (hcl : s.closed = false) (hn : s.handed = false) (hw : s.wait = some (.sigReq, false)) :
+    let r := (onPacket c cfg s (.signatureRequest pub sig)).1
+    match verifySignature c pub sig (s.extra.getD []) with
+    | .badKey => r.closed = true ∧ r.handed = false ∧ r.id = none
+    | .badSig => r.closed = true ∧ r.handed = false ∧ r.id = none
+    | .invalid id => r.closed = true ∧ r.handed = false ∧ r.id = some id
+    | .ok id => if id = cfg.self then r.closed = true ∧ r.handed = false ∧ r.id = some id
+                else r.closed = false ∧ r.handed = true ∧ r.id = some id := by
+  have hcw : checkWait s .sigReq = some { s with wait := some (.sigReq, true) } := by
+    unfold checkWait; rw [hw]; simp
+  rw [onPacket_open c cfg s _ (.signatureRequest pub sig) .sigReq hcl hn rfl hcw]
+  simp only [dispatch, handleSignatureRequest]
+  cases hv : verifySignature c pub sig (s.extra.getD []) with
+  | badKey => simp [close, hn]
+  | badSig => simp [close, hn]
+  | invalid id => simp [close, hn]
+  | ok id =>
+    simp only
+    by_cases hs : id = cfg.self
+    · simp [hs, close, hn]
+    · simp [hs, hcl]
+
 end Goloop.C32.Proofs
